@@ -24,7 +24,8 @@ FaultKinds == {"garbage",          \* random bytes
                "length_mismatch",  \* content-length larger than the body, then EOF
                "handler_panic",    \* a well-formed request whose handler panics
                "slow_open",        \* connection left open with a partial request while others are served
-               "reset_burst"}      \* many connections opened and reset at once, some before the server accepts them
+               "reset_burst",      \* many connections opened and reset at once, some before the server accepts them
+               "fd_exhaustion"}    \* connections held open until the process has no file descriptors left, then released
 
 \* is the request on this connection malformed HTTP (as opposed to
 \* well-formed but incomplete, or well-formed with a failing handler)?
